@@ -12,6 +12,8 @@
         abort after vote         trunc pos
         vote raising (disk full) write pos (some prefix) ; trunc pos
         abort before vote        nothing reaches the data file (the records sit in Data.fs.tmp)
+        finish, fsync raising    write (pos+16) status ; flush ; fsync raises ⇒ no `ret`: `_finish` closes the
+                                 storage and re-raises
     A history is a list of such operations; every record of a transaction written at `pos` gets
     `tloc = pos` (`DataHeader(oid, tid, old, pos, …)` in store/deleteObject/restore/undo).  Stores,
     deletes, undo records (back pointers) and restores (explicit serial) differ only in the record
@@ -28,7 +30,8 @@ open ZodbModel ZodbModel.Format
 inductive Ev where
   | write (off : Nat) (data : Bytes)
   | trunc (n : Nat)
-  | fsync
+  | fsync                              -- an fsync that SUCCEEDED
+  | fsyncFailed                        -- an fsync that raised (EIO …): nothing is forced to stable storage
   | ret
 deriving Repr, DecidableEq
 
@@ -43,6 +46,7 @@ def applyEv (img : Bytes) : Ev → Bytes
   | .write off d => applyWrite img off d
   | .trunc n => img.take n ++ zeros (n - img.length)
   | .fsync => img
+  | .fsyncFailed => img
   | .ret => img
 
 def applyEvents (img : Bytes) (es : List Ev) : Bytes := es.foldl applyEv img
@@ -64,6 +68,10 @@ inductive Op where
   | abortAfterVote (t : FTxn)        -- …, tpc_vote, tpc_abort
   | voteFails (t : FTxn) (n : Nat)   -- tpc_vote raises after n bytes reached the file, tpc_abort
   | abortBeforeVote                  -- tpc_begin, stores, tpc_abort
+  | finishFsyncFails (t : FTxn)      -- …, tpc_vote, tpc_finish whose fsync raises: `_finish` logs, closes
+                                     -- the storage and re-raises — tpc_finish does NOT return; the status
+                                     -- byte was flipped and flushed, so the transaction is in the file
+                                     -- (the application reopens the storage to go on)
 deriving Repr, DecidableEq
 
 /-- end of the committed data = `_pos` (4 + Σ (tl + 8)) -/
@@ -87,10 +95,14 @@ def opEvents (cs : List FTxn) : Op → List Ev
     let p := filePos cs
     [.write p ((voteBytes p t).take n), .trunc p]
   | .abortBeforeVote => []
+  | .finishFsyncFails t =>
+    let p := filePos cs
+    [.write p (voteBytes p t), .write (p + 16) (be 1 t.status), .fsyncFailed]
 
-/-- committed transactions after one operation -/
+/-- transactions in the file after one operation -/
 def opCommits (cs : List FTxn) : Op → List FTxn
   | .commit t => [mkTxn (filePos cs) t]
+  | .finishFsyncFails t => [mkTxn (filePos cs) t]
   | _ => []
 
 /-- event trace of a history started with `cs` committed -/
@@ -113,6 +125,7 @@ def OpWF (cs : List FTxn) : Op → Prop
   | .abortAfterVote t => AbortWF t
   | .voteFails t _ => AbortWF t
   | .abortBeforeVote => True
+  | .finishFsyncFails t => TxnWF (filePos cs) (mkTxn (filePos cs) t)
 
 instance (cs : List FTxn) (op : Op) : Decidable (OpWF cs op) := by
   cases op <;> (simp only [OpWF]; infer_instance)
